@@ -16,6 +16,9 @@ privacy run (R <H|P|U> <pat>)* (Q <c|v|p> <obj>(;<obj>)*)*   -> <answer>* | <cac
      object;parent;grandparent…   answers: PUBLIC PRIVATE HIDDEN True False ReError IndexError
 privacy cli (V <value>)* (Q …)*       -> the same, the rules being the command-line values parsed by the model
                                          of options._convert_privacy; SystemExit | IndexError when a value is refused
+privacy world (V <value>)* W <obj>(;<obj>)* (A <c|v|p> <id>(,<id>)* | M <id>=<obj>(;<id>=<obj>)*)*
+                                      -> the same with object identities (index in W) and moves (reparent): M gives
+                                         the new records of the objects whose qualified name / contents bit changed
 privacy parse <value>                 -> ok <LEVEL> <pat> | SystemExit | IndexError
 ```
 strings are `u:` tokens (Proto). -/
@@ -157,6 +160,35 @@ def answerRun (rules : List Rule) (qs : List Query) : String :=
   let (as, c) := runQueries rules [] qs
   " ".intercalate as ++ " | " ++ showCache c
 
+def parseUpd (tok : String) : Option (List (Nat × Obj)) :=
+  (tok.splitOn ";").mapM fun p =>
+    match p.splitOn "=" with
+    | [i, o] => do let n ← i.toNat?; let ob ← parseObj o; pure (n, ob)
+    | _ => none
+
+def parseEvents : List String → Option (List Event)
+  | [] => some []
+  | "A" :: op :: ids :: rest =>
+    match (ids.splitOn ",").mapM (·.toNat?), parseEvents rest with
+    | some ns, some es =>
+      match op, ns with
+      | "c", [i] => some (.cls i :: es)
+      | "p", [i] => some (.prv i :: es)
+      | "v", _ :: _ => some (.vis ns :: es)
+      | _, _ => none
+    | _, _ => none
+  | "M" :: u :: rest =>
+    match parseUpd u, parseEvents rest with
+    | some upd, some es => some (.move upd :: es)
+    | _, _ => none
+  | _ => none
+
+def showAns : Ans → String
+  | .lvl (.ok l) => showLevel l
+  | .lvl (.err e) => showErr e
+  | .bool b => showBoolRes b
+  | .badId => "BadId"
+
 def handlePrivacy (args : List String) : String :=
   match args with
   | ["parse", v] =>
@@ -182,6 +214,19 @@ def handlePrivacy (args : List String) : String :=
         | .indexError => "IndexError"
       | _ => "bad-op"
     | none => "bad-op"
+  | "world" :: rest =>
+    match parseValues rest [] with
+    | some (values, "W" :: wtok :: rest') =>
+      match (wtok.splitOn ";").mapM parseObj, parseEvents rest' with
+      | some w, some es =>
+        match parseRules values with
+        | .ok rules =>
+          let (as, c) := runEvents rules w [] es
+          " ".intercalate (as.map showAns) ++ " | " ++ showCache c
+        | .systemExit => "SystemExit"
+        | .indexError => "IndexError"
+      | _, _ => "bad-op"
+    | _ => "bad-op"
   | _ => "bad-op"
 
 end GlobIO
